@@ -303,8 +303,58 @@ def pick_regexes(rng, k=None):
     return rng.sample(M.REGEXES, k or rng.randint(1, 2))
 
 
+def v_cut_orf(cx):
+    """cut -o -r (added after seeded change C12r2-b): the selected fields come out grouped in the order of the -f list (usage
+    text of -o) and, inside the fields taken by one regex, in record order with names and values intact (the property's
+    'relative order intact'); records up to 40 fields wide with interleaved name families, so that one regex selects more
+    fields than any small-slice special case of a sort routine covers."""
+    rng = cx.rng
+    fams = rng.sample(["a", "b", "c", "w", "n", "zz"], rng.randint(2, 4))
+    recs = []
+    for i in range(rng.randint(3, 8)):
+        width = rng.choice([4, 8, 11, 12, 13, 14, 16, 24, 30, 40])
+        ks = [f"{fams[j % len(fams)]}{j + 1}" for j in range(width)]
+        if rng.random() < 0.4:
+            rng.shuffle(ks)
+        rec = [(k, rng.choice(VALS)) for k in ks]
+        rec.insert(rng.randint(0, len(rec)), ("_id", f"r{i+1}"))
+        recs.append(rec)
+    use = rng.sample(fams, rng.randint(1, len(fams)))
+    regexes = [("^" + f, "^" + f, 0) for f in use]
+    if rng.random() < 0.3:
+        regexes.append(rng.choice([("[0-9]$", "[0-9]$", 0), ("1", "1", 0), ("^_", "^_", 0)]))    # may overlap the others
+    argv = ["cut", "-o", "-r", "-f", lst(r[0] for r in regexes)]
+    cx.opt = "orf"
+    outs = cx.flat(argv, recs)
+    if outs is None:
+        return
+    cx.nontrivial = any(sum(1 for k, _ in r if any(M.rx_match(x, k) for x in regexes)) >= 13 for r in recs)
+    if len(outs) != len(recs):
+        cx.violation("bystander", "record-count", f"{len(recs)} in, {len(outs)} out", argv, recs, got=outs)
+        return
+    for i, (r, o) in enumerate(zip(recs, outs)):
+        claims = [[j for j, x in enumerate(regexes) if M.rx_match(x, k)] for k, _ in r]
+        sel = [kv for kv, c in zip(r, claims) if c]
+        if sorted(o) != sorted(sel):
+            cx.violation("bystander", "changed", f"record {i+1}: cut -o -r output {o} is not the selected fields {sel} with names and values intact",
+                         argv, recs, expected=sel, got=o)
+            return
+        if any(len(c) > 1 for c in claims):
+            bump(cx.res, "orf_records_with_doubly_matched_field_order_unjudged")
+            continue
+        want = [kv for j in range(len(regexes)) for kv, c in zip(r, claims) if c == [j]]
+        if o != want:
+            cx.violation("model", "order", f"record {i+1} ({len(sel)} selected fields): cut -o -r does not keep the -f order of the groups and "
+                         f"record order inside each group: expected {want} got {o}", argv, recs, expected=want, got=o)
+            return
+        bump(cx.res, "orf_records_judged")
+    bump(cx.res, "verb_cases_ok")
+
+
 def v_cut(cx):
     rng = cx.rng
+    if rng.random() < 0.2:
+        return v_cut_orf(cx)
     recs = gen_stream(rng)
     mode = rng.choice(["f", "f", "of", "xf", "xf", "rf", "xrf", "complement-long"])
     F = pick_names(rng, recs, 1, 5)
